@@ -17,7 +17,7 @@ def replay_unit(mod, body):
     warm = getattr(mod, 'WARM', None)
     if warm is not None:
         warm()
-    ok, t = core.rerun_unit_for(mod, core.totuple(case['unit']), case['expect_signature'], case['expect_key'])
+    ok, t = core.rerun_unit_for(mod, core.totuple(case['unit']), case['expect_signature'], case['expect_key'], case.get('ordinal', 0))
     if not ok:
         return []
     func, kind = case['expect_signature'].split('|', 1)
@@ -37,6 +37,8 @@ def main(argv):
             if body['case'].get('oracle') == '__unit__':
                 fails = fails2 = replay_unit(mod, body)
             else:
+                from mc import curves as _cv
+                _cv.set_int_mode(body['case'].get('__int64__', False))
                 fails = mod.replay(body['case'])
                 fails2 = mod.replay(body['case'])
             s1, s2 = sorted(set(f.sig for f in fails)), sorted(set(f.sig for f in fails2))
